@@ -304,3 +304,218 @@ Proof.
       lia.
     + assert (N3 : 0 <= K * K) by (apply Z.mul_nonneg_nonneg; lia). lia.
 Qed.
+
+(* ====================================================================================================================
+   exact-out swaps: the price does not move further than delivering the remaining amount needs, up to one unit of the
+   36th decimal of the sqrt price
+   ==================================================================================================================== *)
+Lemma next_amount1_out_rev : forall cur liq amt next, 0 < liq -> 0 <= amt ->
+  next_sqrt_price_amount1_out_round_down cur liq amt = Some next ->
+  liq * (cur - next) < amt * P18 + liq.
+Proof.
+  unfold next_sqrt_price_amount1_out_round_down. intros cur liq amt next Hl Ha H.
+  destruct (nz liq); [|discriminate]. destruct (bd_chk _) as [q|] eqn:E; [|discriminate]. inversion H; subst.
+  apply bd_chk_some in E. subst q. unfold bd_quo_by_dec_round_up. pose proof P18_pos.
+  destruct (ceil_div_spec (amt * P18) liq ltac:(apply Z.mul_nonneg_nonneg; lia) Hl) as [[A1 A2] A3].
+  set (q := inc_rem_div (Z.rem (amt * P18) liq) liq (Z.quot (amt * P18) liq)) in *. clearbody q.
+  replace (cur - (cur - q)) with q by ring. lia.
+Qed.
+
+Lemma next_amount0_out_rev : forall cur liq36 amt18 next, 0 < liq36 -> 0 < cur -> 0 <= amt18 -> 0 < next ->
+  next_sqrt_price_amount0_out_round_up cur liq36 amt18 = Some next ->
+  liq36 * (next - cur) * P36 < amt18 * P18 * next * cur + P36 * (next + P36 + liq36).
+Proof.
+  unfold next_sqrt_price_amount0_out_round_up. intros cur liq36 amt18 next Hl Hc Ha Hn H.
+  pose proof P36_pos as HP. pose proof P18_pos as HP8.
+  destruct (amt18 =? 0) eqn:E0.
+  { apply Z.eqb_eq in E0. inversion H; subst. nia. }
+  destruct (bd_chk (bd_mul_round_up_dec cur amt18)) as [product|] eqn:E1; [|discriminate].
+  destruct (bd_chk (bd_mul_round_up liq36 cur)) as [num|] eqn:E2; [|discriminate].
+  destruct (nz (liq36 - product)) eqn:E3; [|discriminate].
+  apply bd_chk_some in E1, E2, H. apply nz_some in E3. subst.
+  unfold bd_mul_round_up_dec, bd_mul_round_up, bd_quo_round_up_mut, bd_quo_round_up in *. rewrite P36_sq in *.
+  set (K := P18) in *. clearbody K.
+  assert (HKK : 0 < K * K) by (apply Z.mul_pos_pos; assumption).
+  pose proof (chop_round_up_nonneg_spec K (cur * amt18) HP8 ltac:(apply Z.mul_nonneg_nonneg; lia)) as [M1 M2].
+  set (product := chop_round_up K (cur * amt18)) in *. clearbody product.
+  pose proof (chop_round_up_nonneg_spec (K * K) (liq36 * cur) HKK ltac:(apply Z.mul_nonneg_nonneg; lia)) as [N1 N2].
+  set (num := chop_round_up (K * K) (liq36 * cur)) in *. clearbody num.
+  assert (Hprod : 0 <= product) by nia.
+  assert (Hnum : 0 < num) by nia.
+  set (den := liq36 - product) in *.
+  destruct (Z_lt_le_dec den 0) as [Dn|Dp0].
+  - (* negative denominator: the result is not positive *)
+    exfalso. unfold inc_rem_div in Hn.
+    assert (Qle : Z.quot (num * (K * K)) den <= 0).
+    { rewrite <- (Z.opp_involutive den). rewrite Z.quot_opp_r by lia.
+      pose proof (Z.quot_pos (num * (K * K)) (- den) ltac:(nia) ltac:(lia)). lia. }
+    assert (Rge : 0 <= Z.rem (num * (K * K)) den).
+    { rewrite <- (Z.opp_involutive den). rewrite Z.rem_opp_r by lia. apply Z.rem_nonneg; [lia|nia]. }
+    destruct (Z.rem (num * (K * K)) den =? 0) eqn:ER; simpl in Hn; [lia|].
+    apply Z.eqb_neq in ER.
+    assert (S1 : Z.sgn (Z.rem (num * (K * K)) den) = 1) by (apply Z.sgn_pos; lia).
+    assert (S2 : Z.sgn den = -1) by (apply Z.sgn_neg; lia).
+    rewrite S1, S2 in Hn. simpl in Hn. lia.
+  - assert (Dp : 0 < den) by lia.
+    destruct (ceil_div_spec (num * (K * K)) den ltac:(nia) Dp) as [[B1 B2] B3].
+    set (nx := inc_rem_div (Z.rem (num * (K * K)) den) den (Z.quot (num * (K * K)) den)) in *. clearbody nx.
+    (* nx den < num KK + den < liq36 cur + KK + den *)
+    assert (S1 : liq36 * (nx - cur) < nx * product + K * K + liq36) by (unfold den in *; nia).
+    assert (S2 : nx * (product * K) < nx * (cur * amt18 + K)) by (apply Z.mul_lt_mono_pos_l; lia).
+    assert (S3 : liq36 * (nx - cur) * K < (nx * product + K * K + liq36) * K) by (apply Z.mul_lt_mono_pos_r; lia).
+    assert (S4 : liq36 * (nx - cur) * K * K < (nx * (cur * amt18 + K) + (K * K + liq36) * K) * K) by (apply Z.mul_lt_mono_pos_r; lia).
+    lia.
+Qed.
+
+(* a capped step (it delivers exactly what is still requested): the exact proceeds of its price move exceed that by less than the
+   value of one price unit *)
+Definition out_capped (zfo : bool) (liq cur next aout : Z) : Prop :=
+  0 < liq /\
+  (if zfo then liq * (cur - next) < aout * P18 * P18 + liq
+   else liq * P18 * (next - cur) * P36 < aout * P18 * next * cur + P36 * (next + P36 + liq * P18)).
+
+Lemma in_given_out_step_cap : forall zfo spf cur target liq remaining next aout ain fee,
+  compute_in_given_out zfo spf cur target liq remaining = Some (next, aout, ain, fee) ->
+  0 <= liq -> 0 < cur -> 0 < next -> 0 <= remaining -> 0 <= spf < P18 ->
+  (out_at_least zfo liq cur next aout \/ out_capped zfo liq cur next aout) /\
+  (ain + fee) * (P18 - spf) < ain * P18 + ain + P18.
+Proof.
+  intros zfo spf cur target liq remaining next aout ain fee H Hl Hc Hn Hr Hs. unfold compute_in_given_out in H.
+  pose proof P18_pos as H18. pose proof P36_pos as H36.
+  assert (Cap : bd_to_dec (bd_from_dec remaining) = remaining).
+  { unfold bd_to_dec, bd_from_dec. apply Z.quot_mul. lia. }
+  assert (R36 : 0 <= bd_from_dec remaining) by (unfold bd_from_dec; nia).
+  destruct zfo.
+  - destruct (calc_amount1_delta liq target cur false) as [a0|] eqn:E0; [|discriminate].
+    destruct (a0 <=? bd_from_dec remaining) eqn:Ecmp.
+    + rewrite Z.eqb_refl in H.
+      destruct (calc_amount0_delta liq target cur true) as [xi|] eqn:Ei; [|discriminate].
+      destruct (fee_from_amount_in (bd_to_dec_round_up xi) spf) as [f|] eqn:EF; [|discriminate].
+      apply Z.leb_le in Ecmp. assert (Ef : (bd_from_dec remaining <? a0) = false) by (apply Z.ltb_ge; lia). rewrite Ef in H.
+      inversion H; subst. clear H.
+      destruct (amount_in_covers true liq cur next xi _ Hl Hc Hn Ei eq_refl) as [I1 _].
+      split; [left; apply (amount_out_at_least true); assumption|apply fee_from_amount_in_ub; assumption].
+    + destruct (next_sqrt_price_amount1_out_round_down cur liq (bd_from_dec remaining)) as [nx|] eqn:En; [|discriminate].
+      assert (Hlp : 0 < liq).
+      { unfold next_sqrt_price_amount1_out_round_down in En. destruct (nz liq) eqn:Enz; [|discriminate]. apply nz_some in Enz. lia. }
+      pose proof (next_amount1_out_rev _ _ _ _ Hlp R36 En) as Rev.
+      set (reached := target =? nx) in *.
+      destruct (if reached then Some a0 else calc_amount1_delta liq nx cur false) as [xo|] eqn:Eo; [|discriminate].
+      destruct (calc_amount0_delta liq nx cur true) as [xi|] eqn:Ei; [|discriminate].
+      destruct (fee_from_amount_in (bd_to_dec_round_up xi) spf) as [f|] eqn:EF; [|discriminate].
+      inversion H; subst nx aout ain f. clear H.
+      assert (Eo' : calc_amount1_delta liq next cur false = Some xo).
+      { destruct reached eqn:ER; [|exact Eo]. unfold reached in ER. apply Z.eqb_eq in ER. subst target. inversion Eo; subst. exact E0. }
+      destruct (amount_in_covers true liq cur next xi _ Hl Hc Hn Ei eq_refl) as [I1 _].
+      split; [|apply fee_from_amount_in_ub; assumption].
+      destruct (bd_from_dec remaining <? xo); [right|left; apply (amount_out_at_least true); assumption].
+      rewrite Cap. unfold out_capped. split; [assumption|]. unfold bd_from_dec in Rev. lia.
+  - destruct (calc_amount0_delta liq target cur false) as [a0|] eqn:E0; [|discriminate].
+    destruct (a0 <=? bd_from_dec remaining) eqn:Ecmp.
+    + rewrite Z.eqb_refl in H.
+      destruct (calc_amount1_delta liq target cur true) as [xi|] eqn:Ei; [|discriminate].
+      destruct (fee_from_amount_in (bd_to_dec_round_up xi) spf) as [f|] eqn:EF; [|discriminate].
+      apply Z.leb_le in Ecmp. assert (Ef : (bd_from_dec remaining <? a0) = false) by (apply Z.ltb_ge; lia). rewrite Ef in H.
+      inversion H; subst. clear H.
+      destruct (amount_in_covers false liq cur next xi _ Hl Hc Hn Ei eq_refl) as [I1 _].
+      split; [left; apply (amount_out_at_least false); assumption|apply fee_from_amount_in_ub; assumption].
+    + apply Z.leb_gt in Ecmp.
+      destruct (next_sqrt_price_amount0_out_round_up cur (bd_from_dec liq) remaining) as [nx|] eqn:En; [|discriminate].
+      assert (Hlp : 0 < liq).
+      { destruct (Z.eq_dec liq 0) as [Z0|Z0]; [|lia]. subst liq. apply calc_amount0_delta_zero_liq in E0. lia. }
+      assert (Hl36 : 0 < bd_from_dec liq) by (unfold bd_from_dec; nia).
+      set (reached := target =? nx) in *.
+      destruct (if reached then Some a0 else calc_amount0_delta liq nx cur false) as [xo|] eqn:Eo; [|discriminate].
+      destruct (calc_amount1_delta liq nx cur true) as [xi|] eqn:Ei; [|discriminate].
+      destruct (fee_from_amount_in (bd_to_dec_round_up xi) spf) as [f|] eqn:EF; [|discriminate].
+      inversion H; subst nx aout ain f. clear H.
+      pose proof (next_amount0_out_rev _ _ _ _ Hl36 Hc Hr Hn En) as Rev.
+      assert (Eo' : calc_amount0_delta liq next cur false = Some xo).
+      { destruct reached eqn:ER; [|exact Eo]. unfold reached in ER. apply Z.eqb_eq in ER. subst target. inversion Eo; subst. exact E0. }
+      destruct (amount_in_covers false liq cur next xi _ Hl Hc Hn Ei eq_refl) as [I1 _].
+      split; [|apply fee_from_amount_in_ub; assumption].
+      destruct (bd_from_dec remaining <? xo); [right|left; apply (amount_out_at_least false); assumption].
+      rewrite Cap. unfold out_capped. split; [assumption|]. unfold bd_from_dec in Rev. exact Rev.
+Qed.
+
+Definition seg3o_ok (s : state) (zfo : bool) (sg : seg) : Prop :=
+  in_at_most zfo (sg_liq sg) (sg_a sg) (sg_b sg) (sg_in sg) /\
+  (out_at_least zfo (sg_liq sg) (sg_a sg) (sg_b sg) (sg_out sg) \/ out_capped zfo (sg_liq sg) (sg_a sg) (sg_b sg) (sg_out sg)) /\
+  (sg_in sg + sg_fee sg) * (P18 - p_spread (s_pool s)) < sg_in sg * P18 + sg_in sg + P18 /\
+  (zfo = true -> 10 ^ 30 <= sg_a sg /\ 10 ^ 30 <= sg_b sg).
+
+Lemma loop_in_path3 : forall s fuel zfo accum sc limit st iter noprog st' tr, Inv s ->
+  sqrt_price_limit zfo = Some limit -> LI s zfo st iter -> 0 <= ss_remaining st ->
+  loop_in_trace fuel zfo accum (p_spread (s_pool s)) sc limit st iter noprog = Some (st', tr) ->
+  Forall (seg3o_ok s zfo) tr.
+Proof.
+  intros s fuel. induction fuel as [|f IH]; intros zfo accum sc limit st iter noprog st' tr I HL L R0 H; simpl in H; [discriminate|].
+  destruct ((smallest_dec <? ss_remaining st) && negb (ss_sqrt st =? limit)) eqn:Econd.
+  2:{ inversion H; subst. constructor. }
+  apply andb_true_iff in Econd. destruct Econd as [Erem _]. apply Z.ltb_lt in Erem. unfold smallest_dec in Erem.
+  destruct iter as [|[nt info] rest]; [discriminate|].
+  destruct (tick_to_sqrt_price nt) as [nts|] eqn:Snt; [|discriminate].
+  destruct (LI_facts s zfo st nt info rest nts I L Snt) as [Fl [Fr Fz]].
+  rewrite (sqrt_target_next zfo limit nt nts HL Fr Snt) in H.
+  destruct (compute_in_given_out zfo (p_spread (s_pool s)) (ss_sqrt st) nts (ss_liq st) (ss_remaining st)) as [[[[computed aout] ain] fee]|] eqn:EC; [|discriminate].
+  destruct (negb (progress_ok computed (ss_sqrt st) ain aout)); [discriminate|].
+  destruct (dchk (ain + fee)) as [infee|] eqn:Ei; [|discriminate]. apply dchk_some in Ei. subst infee.
+  destruct (after_step zfo accum sc st ((nt, info) :: rest) nt info nts computed aout (ain + fee) fee) as [[st1 iter1]|] eqn:EA; [|discriminate].
+  pose proof L as L0. destruct L0 as [L1 [L2 [L3 L4]]].
+  assert (Dir : computed = nts \/ computed = ss_sqrt st \/ dir_ok zfo (ss_sqrt st) computed).
+  { destruct (compute_in_given_out_dir _ _ _ _ _ _ _ _ _ _ EC Fl L2 Erem) as [D|D]; [left; assumption|right; right; assumption]. }
+  assert (L' : LI s zfo st1 iter1) by (eapply after_step_LI; try eassumption; reflexivity).
+  destruct (after_step_sqrt_rem _ _ _ _ _ _ _ _ _ _ _ _ _ _ EA) as [Q1 [Q2 Q3]].
+  assert (Cpos : 0 < computed) by (destruct L' as [_ [P _]]; rewrite Q1 in P; exact P).
+  assert (Hs' : 0 <= p_spread (s_pool s) < P18) by (pose proof (inv_spread s I); rewrite P18_val; lia).
+  destruct (in_given_out_step _ _ _ _ _ _ _ _ _ _ EC Fl L2 Cpos ltac:(lia) Hs') as [_ [_ [_ [Scap _]]]].
+  destruct (in_given_out_step_error _ _ _ _ _ _ _ _ _ _ EC Fl L2 Cpos ltac:(lia)) as [S1 _].
+  destruct (in_given_out_step_cap _ _ _ _ _ _ _ _ _ _ EC Fl L2 Cpos ltac:(lia) Hs') as [S2 S3].
+  assert (S4 : zfo = true -> 10 ^ 30 <= ss_sqrt st /\ 10 ^ 30 <= computed).
+  { intros Ez. split; [apply Fz; exact Ez|]. subst zfo.
+    pose proof (after_step_b_side _ _ _ _ _ _ _ _ _ _ _ _ _ _ _ I L Snt Dir EA) as BS.
+    destruct (iter_ok_head _ _ _ _ _ _ L4) as [Hin [Hb _]]. unfold beyond in Hb. apply Z.leb_le in Hb.
+    destruct (BS nt info nts Hin Snt) as [A _]. specialize (A Hb).
+    pose proof (tick_to_sqrt_price_mono MinInitializedTick nt _ nts ltac:(lia) ltac:(lia) ltac:(lia) sqrt_min_val Snt). lia. }
+  assert (SegOk : seg3o_ok s zfo (mkSeg (ss_liq st) (ss_tick st) (ss_sqrt st) computed ain aout fee)).
+  { unfold seg3o_ok; cbn [sg_liq sg_tick sg_a sg_b sg_in sg_out sg_fee]. splits; assumption. }
+  assert (Rec : forall np, (do rr <- loop_in_trace f zfo accum (p_spread (s_pool s)) sc limit st1 iter1 np;
+                            Some (fst rr, mkSeg (ss_liq st) (ss_tick st) (ss_sqrt st) computed ain aout fee :: snd rr)) = Some (st', tr) ->
+          Forall (seg3o_ok s zfo) tr).
+  { intros np HR. destruct (loop_in_trace f zfo accum (p_spread (s_pool s)) sc limit st1 iter1 np) as [[st2 tr2]|] eqn:ER; [|discriminate].
+    inversion HR; subst st' tr; clear HR. simpl fst; simpl snd.
+    constructor; [assumption|]. apply (IH _ _ _ _ _ _ _ _ _ I HL L' ltac:(rewrite Q2; lia) ER). }
+  destruct (aout =? 0).
+  - destruct (swap_no_progress_limit <=? noprog); [discriminate|]. apply (Rec _ H).
+  - apply (Rec _ H).
+Qed.
+
+(* the charge of an exact-out step in one inequality (as step_consumes, without the price-unit term) *)
+Definition step_charges (zfo : bool) (spf liq cur next g : Z) : Prop :=
+  if zfo then
+    g * (P18 - spf) * next * cur * P18 <
+      liq * (cur - next) * (P18 * P18 * (P18 * P18)) + next * cur * (P18 * P18 * P18) + (P18 * P18 + cur) * (P18 * P18 * P18) +
+      g * next * cur * P18 + next * cur * (P18 * P18)
+  else
+    2 * g * (P18 - spf) * P18 < 2 * liq * (next - cur) + 2 * (P18 * P18 * P18) + P18 + 2 * g * P18 + 2 * (P18 * P18).
+
+Lemma step_charges_of : forall (zfo : bool) (spf liq cur next ain g : Z),
+  0 <= liq -> 0 < next -> 0 < cur -> 0 <= ain <= g -> 0 <= spf < P18 ->
+  (if zfo then next <= cur else cur <= next) ->
+  in_at_most zfo liq cur next ain -> g * (P18 - spf) < ain * P18 + ain + P18 ->
+  step_charges zfo spf liq cur next g.
+Proof.
+  intros zfo spf liq cur next ain g Hl Hn Hc Ha Hs Hd IA GA.
+  unfold step_charges, in_at_most in *. rewrite P36_sq in *.
+  pose proof P18_pos as HK. set (K := P18) in *. clearbody K.
+  destruct zfo.
+  - rewrite Z.abs_eq in IA by lia. rewrite Z.max_r in IA by lia.
+    assert (N1 : 0 < next * cur * K) by (apply Z.mul_pos_pos; [apply Z.mul_pos_pos|]; lia).
+    assert (A1 : g * (K - spf) * (next * cur * K) < (ain * K + ain + K) * (next * cur * K)) by (apply Z.mul_lt_mono_pos_r; assumption).
+    assert (A2 : ain * (next * cur * K) <= g * (next * cur * K)) by (apply Z.mul_le_mono_nonneg_r; lia).
+    lia.
+  - rewrite Z.abs_neq in IA by lia.
+    assert (A1 : g * (K - spf) * K < (ain * K + ain + K) * K) by (apply Z.mul_lt_mono_pos_r; assumption).
+    assert (A2 : ain * K <= g * K) by (apply Z.mul_le_mono_nonneg_r; lia).
+    lia.
+Qed.
